@@ -306,6 +306,58 @@ fn check_doc_in_order(pins: &[Pin], tests: &[TestDesc], st: &mut Stats) -> Optio
     }
 }
 
+/// The three ways into the loader - `File::parse`, `str::parse::<File>()` and `File::open` on a file
+/// holding the same bytes - give the same file (signals, tests with labels and sources) or all give an
+/// error with the same message.
+fn entry_points(doc: &str) -> Option<String> {
+    fn show(r: Result<dtr::dig::File, dtr::errors::DigFileError>) -> String {
+        match r {
+            Ok(f) => format!("Ok signals={:?} tests={:?}", f.signals, f.test_cases.iter().map(|t| (&t.name, &t.source)).collect::<Vec<_>>()),
+            // the wording may list names in the arbitrary order of a hash set: compared as a bag of words
+            Err(e) => {
+                let m = format!("{e}");
+                let mut w: Vec<&str> = m.split([' ', ',']).filter(|x| !x.is_empty()).collect();
+                w.sort();
+                format!("Err {}", w.join(" "))
+            }
+        }
+    }
+    let d = doc.to_string();
+    let r = guard(DEFAULT_BUDGET, move || {
+        let a = show(dtr::dig::File::parse(&d));
+        let b = show(d.parse::<dtr::dig::File>());
+        let dir = std::env::temp_dir().join(format!("dtr-verif-open-{}", std::process::id()));
+        let _ = std::fs::create_dir_all(&dir);
+        let path = dir.join(format!("{:?}.dig", std::thread::current().id()).replace(['(', ')'], "_"));
+        let c = if std::fs::write(&path, d.as_bytes()).is_ok() {
+            let c = show(dtr::dig::File::open(&path));
+            let _ = std::fs::remove_file(&path);
+            c
+        } else {
+            a.clone() // no scratch file could be written: nothing to compare (counted by the witness below)
+        };
+        (a, b, c)
+    });
+    match r {
+        Err(c) => Some(format!("an entry point of the loader panics: {c:?}")),
+        Ok((a, b, c)) => {
+            if a != b {
+                Some(format!("File::parse gives {}\nstr::parse::<File>() gives {}", &a[..a.len().min(400)], &b[..b.len().min(400)]))
+            } else if a != c {
+                let pos = a.bytes().zip(c.bytes()).position(|(x, y)| x != y).unwrap_or(a.len().min(c.len()));
+                let lo = (0..=pos.saturating_sub(60)).rev().find(|i| a.is_char_boundary(*i) && c.is_char_boundary(*i)).unwrap_or(0);
+                Some(format!("File::parse and File::open (same bytes in a file) differ from byte {pos} of their description:\n parse: {}\n open:  {}", a[lo..].chars().take(200).collect::<String>(), c[lo..].chars().take(200).collect::<String>()))
+            } else {
+                None
+            }
+        }
+    }
+}
+
+pub fn remove_scratch_dir() {
+    let _ = std::fs::remove_dir_all(std::env::temp_dir().join(format!("dtr-verif-open-{}", std::process::id())));
+}
+
 fn base_documents() -> Vec<(String, String)> {
     let mut v = vec![];
     for f in ["Counter.dig", "74779.dig", "adder.dig", "74162.dig"] {
@@ -343,6 +395,13 @@ pub fn run(tier: Tier, seed: u64) -> i32 {
             }
             if pi % 100 == 37 && ti == 17 {
                 st.sample(|| json!({"pins": pins.iter().map(|p| p.show()).collect::<Vec<_>>(), "tests": tests.iter().map(|t| format!("{:?}: {:?}", t.label, t.source)).collect::<Vec<_>>(), "reference": format!("{:?}", reference(&pins, &tests))}));
+            }
+            if (pi * 31 + ti as u64) % 16 == 0 {
+                let doc = digxml::render(&pins, &tests);
+                st.witness("entry_points_compared");
+                if let Some(d) = entry_points(&doc) {
+                    st.violation("File::open / FromStr differ from File::parse", 1 << 59 | pi << 12 | ti as u64, format!("pins: {:?}\ntests: {:?}\n{d}", pins.iter().map(|p| p.show()).collect::<Vec<_>>(), tests.iter().map(|t| format!("{:?}: {:?}", t.label, t.source)).collect::<Vec<_>>()), || json!({"kind": "dig", "document": doc, "expected": ["File::parse, FromStr and File::open agree"], "observed": [d.clone()]}));
+                }
             }
             if let Some((class, desc)) = check_doc(&pins, &tests, st) {
                 let doc = digxml::render(&pins, &tests);
@@ -437,6 +496,13 @@ pub fn run(tier: Tier, seed: u64) -> i32 {
             }
             st.evals += 1;
             st.nontrivial += 1;
+            if i % 10 == 0 {
+                st.witness("entry_points_compared_on_corrupted_documents");
+                if let Some(d) = entry_points(&c) {
+                    st.violation("File::open / FromStr differ from File::parse", (1 << 58) + ((bi as u64) << 32) + i as u64, format!("base document: {bname}\ncorruption index {i}\n{d}"), || json!({"kind": "dig", "document": c, "expected": ["File::parse, FromStr and File::open agree"], "observed": [d.clone()]}));
+                    return;
+                }
+            }
             let c2 = c.clone();
             match guard(DEFAULT_BUDGET, move || dtr::dig::File::parse(&c2).map(|f| f.test_cases.len()).map_err(|e| miette_chain(&e))) {
                 Ok(Ok(_)) => st.witness("corrupted_document_still_loads"),
@@ -458,12 +524,13 @@ pub fn run(tier: Tier, seed: u64) -> i32 {
         assumptions: vec![
             "the generating description is the oracle; a document is loadable iff every test header parses, every header column is a pin label or <input>_out with no pin of that name; signals are compared as a multiset (their order is not specified by the property)".into(),
             "the name given to a Testcase without Label entry is not specified".into(),
-            "dig::File::open (file system) is not explored; parse is".into(),
+            "dig::File::open is compared with parse on every sixteenth generated document and every tenth corruption, through a scratch file in the system's temporary directory (removed at once); file-system faults are not explored".into(),
         ],
-        required_witnesses: vec!["document_with_300_pins_and_40_tests", "loadable_document", "unloadable_document_rejected", "bidirectional_signal_recovered", "load_test_ok", "load_test_err_same_class", "duplicate_test_label", "corrupted_document_still_loads", "corrupted_document_rejected", "lookup_by_a_name_that_is_nearly_a_label", "test_loaded_twice_from_one_file_object", "tests_in_front_of_pins_in_the_document"],
+        required_witnesses: vec!["document_with_300_pins_and_40_tests", "loadable_document", "unloadable_document_rejected", "bidirectional_signal_recovered", "load_test_ok", "load_test_err_same_class", "duplicate_test_label", "corrupted_document_still_loads", "corrupted_document_rejected", "lookup_by_a_name_that_is_nearly_a_label", "test_loaded_twice_from_one_file_object", "tests_in_front_of_pins_in_the_document", "entry_points_compared", "entry_points_compared_on_corrupted_documents"],
         exhaustive_note: "all menu sequences within the bounds; all listed corruptions".into(),
         e1: false,
     };
+    remove_scratch_dir();
     finish(meta, total, started)
 }
 
